@@ -24,7 +24,7 @@ REQUIRED = ["iff_checked:plurality", "iff_checked:approval", "iff_checked:superm
             "truth:winners_did_not_win", "margin_tally_holds_write_in_votes",
             "style_mean_rechecked_after_scoring_cards_lacking_the_contest", "card_count_revised_after_assertions_were_made",
             "margin_checked:contest_level_call_with_confirmed_assertions", "assertions_built_by_make_all_assertions",
-            "candidate_names_contained_in_one_another"]
+            "candidate_names_contained_in_one_another", "contest_carries_a_reported_tally_when_assertions_are_made"]
 ASSUMPTIONS = ["shares f in {1/2,1/4,1/8} (f and 1/(2f) both dyadic) are exact in binary; inexact shares (2/3, 0.6) are only evaluated at a "
                "distance from the threshold that rounding cannot bridge", "a mark for a name that is not on the contest's "
                "candidate list (write-in) appears only on ballots with no mark for a listed candidate, so that no "
@@ -87,6 +87,9 @@ def gen_profile(rng, kind, stratum):
     if rng.random() < 0.3:
         prof["cards_first"] = nb + rng.choice((1, 3, nb))
     prof["via_make_all"] = rng.random() < 0.4
+    if rng.random() < 0.3:
+        order = sorted(cands, key=lambda c: (c not in winners, rng.random()))   # reported: winners ahead, whatever was cast
+        prof["reported_tally"] = {c: 10 * (len(cands) - j) + rng.randint(0, 9) for j, c in enumerate(order)}
     if stratum == "tie" and kind != "supermajority":
         force_tie(rng, prof)
     if stratum == "true_winners" and kind != "supermajority":
@@ -180,6 +183,9 @@ def build(prof):
                              "candidates": list(prof["cands"]), "winner": list(prof["winners"]),
                              "audit_type": Audit.AUDIT_TYPE.POLLING, "test": NonnegMean.alpha_mart,
                              "estim": NonnegMean.shrink_trunc, "bet": None, "use_style": prof["use_style"]})
+    if prof.get("reported_tally"):
+        # the contest carries the REPORTED tally when its assertions are made (it may be wrong: that is what is audited)
+        con.tally = dict(prof["reported_tally"])
     cvrs = [CVR(id=f"c{i}", votes=({} if b is None else {"con": dict(b)})) for i, b in enumerate(prof["ballots"])]
     losers = [c for c in prof["cands"] if c not in prof["winners"]]
     # the constructors are called twice with the SAME argument objects (a notebook cell re-run, or one race audited
@@ -228,6 +234,8 @@ def run_case(prof, rec):
         rec.count("card_count_revised_after_assertions_were_made")
     if prof.get("via_make_all") and kind != "approval":
         rec.count("assertions_built_by_make_all_assertions")
+    if prof.get("reported_tally"):
+        rec.count("contest_carries_a_reported_tally_when_assertions_are_made")
     if any(a != b and a in b for a in cands for b in cands):
         rec.count("candidate_names_contained_in_one_another")
     if con._args_mutated:
